@@ -1491,6 +1491,8 @@ class ValueString(Value):
         return self.value == other.value
 
     def __lt__(self, other):
+        if isinstance(other, ValueString):
+            return self.value < other.value
         return str(self) < str(other)
 
     def __repr__(self):
